@@ -143,9 +143,10 @@ Definition pbl_new (alloc_at : loc -> Z -> bool) (initialOldestEpochID : N) (ini
 (** Returns (block index, hash seed) or not-found.  [Panic] only if the two
     epoch lists differ in length (index out of range on epochLast). *)
 Definition ref_to_index (epochID : N) (blocksFromLast : N) (s : pbl) : outcome (option (nat * N)) :=
-  let epochIndex := N.to_nat (u32 (epochID + 2 ^ 32 - oldestEpochID s)) in
-  if length (epochSeeds s) <=? epochIndex then Ok None
+  let epochIndexN := u32 (epochID + 2 ^ 32 - oldestEpochID s) in
+  if (N.of_nat (length (epochSeeds s)) <=? epochIndexN)%N then Ok None
   else
+    let epochIndex := N.to_nat epochIndexN in
     match nth_error (epochLast s) epochIndex, nth_error (epochSeeds s) epochIndex with
     | Some lastAbs, Some seed =>
         let lastBlockIndex := (Z.of_nat lastAbs - Z.of_nat (totalReleased s))%Z in
